@@ -1,5 +1,4 @@
 //! C19 — traversal, mapping, bounding boxes, extremes.
-use crate::c18::gen_any_geom;
 use crate::gen::*;
 use crate::proto::{self, Toks, R};
 use crate::rng::Rng;
